@@ -107,7 +107,7 @@ PROGRESSING = ["default", "elitism|novelty", "tournament;crossover(1);mutation(1
 NON_PROGRESSING = ["elitism", "tournament"]
 
 
-def observe(algo, size, step_name, kind, keys, mk_budget, wire_budget, cap, seed, scale=1, rep_cls=ScriptRep):
+def observe(algo, size, step_name, kind, keys, mk_budget, wire_budget, cap, seed, scale=1, rep_cls=ScriptRep, step_obj=None):
     """Run one real search. algo in rs|opo|hc|gp."""
     rec = Recording()
     problem, tracker_cls = make_problem(kind, scale)
@@ -124,7 +124,7 @@ def observe(algo, size, step_name, kind, keys, mk_budget, wire_budget, cap, seed
         alg = HC(problem, spy, MutationOnlyRep(keys), random, tracker, number_of_mutations=size)
         name, wire_algo, bound = "HC", ["hc", size], size
     else:
-        alg = GeneticProgramming(problem, spy, rep_cls(keys), random, tracker, population_size=size, step=GP_STEPS[step_name]())
+        alg = GeneticProgramming(problem, spy, rep_cls(keys), random, tracker, population_size=size, step=step_obj if step_obj is not None else GP_STEPS[step_name]())
         name, wire_algo, bound = "GeneticProgramming", ["gp", size], size
     r = Run()
     r.site = f"{name}.search"
@@ -275,6 +275,32 @@ def check_evaluation_budgets(h: Harness):
         for (size, n) in [(2, 3), (3, 10), (5, 6), (1, 2), (4, 4), (6, 2)] + ([(s, s + d) for s in range(1, 9) for d in (1, 5)] if h.thorough else []):
             one("gp", size, st, n)
     h.exhaustive = True
+
+
+def check_step_object_reused(h: Harness):
+    """ONE step object (a module-level default, the same `step` given to both species of a cooperative run) serves several searches with
+    DIFFERENT population sizes, the larger one first: every search stops at its first check with at least n evaluations, less than n plus
+    ITS population size"""
+    rng = h.rng
+    for st in ("default", "elitism|novelty", "elitism|tournament;mutation(1)", "novelty|xpar[mutation(1),crossover(1)]"):
+        for sizes in ((10, 4), (12, 5, 9), (6, 6, 3)):
+            step = GP_STEPS[st]()
+            for which, size in enumerate(sizes):
+                n = rng.randint(size + 1, 6 * size + 1)
+                kind = rng.choice(["single-max", "single-min", "multi"])
+                keys = [rng.randint(0, 5) for _ in range(50)]
+                seed = rng.randrange(10**6)
+                wire_budget = ["evals", n]
+                r = observe("gp", size, st, kind, keys, lambda: EvaluationBudget(n), wire_budget, 3 * n + 24, seed, step_obj=step)
+                r.desc += f" [search #{which + 1} with ONE step object; population sizes so far {list(sizes[: which + 1])}]"
+                replay = {"step": st, "sizes": list(sizes), "which": which, "n": n, "kind": kind, "keys": keys, "seed": seed}
+                h.count("evals:step-object-reused")
+                if not judge_common(h, r, wire_budget, replay):
+                    continue
+                if r.stopped:
+                    h.holds(r.site, "stops-late-or-early", ["prop_stops", n, r.bound, r.counts],
+                            f"{r.desc}: counter at the budget checks = {r.counts}; expected the first check with counter >= {n} and a total < {n} + {r.bound}",
+                            replay, nontrivial=len(r.counts) > 1)
 
 
 def check_parallel_evaluator(h: Harness):
@@ -577,6 +603,7 @@ def check_simplegp(h: Harness):
 
 
 def run(h: Harness):
+    check_step_object_reused(h)
     check_evaluation_budgets(h)
     check_target_and_anyof(h)
     check_parallel_evaluator(h)
